@@ -65,6 +65,14 @@ def sink_rules(ctx, prefix, modules=None, floor=None):
                 # X5: a handle opened for writing is closed deterministically (with-statement, or an explicit close
                 # of the name it is bound to): an I/O error of the final flush then raises in the tool instead of
                 # being swallowed when the handle is garbage-collected
+                raw = any(k.arg == "buffering" and isinstance(k.value, ast.Constant) and k.value.value == 0 for k in o.keywords) \
+                    or (len(o.args) > 2 and isinstance(o.args[2], ast.Constant) and o.args[2].value == 0)
+                ctx.check(not raw, f"{prefix}.X6", fi.site,
+                          f"write handle on `{norm(o.args[0])[:40]}` is buffered (write() takes all bytes or raises)",
+                          f"`{norm(o)[:70]}` opens an unbuffered (raw) file for writing: its write() may accept fewer bytes "
+                          f"than it is given (disk full, quota) and only returns the count - an I/O fault inside that "
+                          f"write is neither retried nor raised and the tool returns normally with a truncated file",
+                          key=f"raw:{norm(o.args[0])[:40]}", where=loc(fi, o), semantic=True)
                 par = pm.get(o)
                 managed = isinstance(par, ast.withitem) and par.context_expr is o
                 if not managed and isinstance(par, ast.Assign) and len(par.targets) == 1 and isinstance(par.targets[0], ast.Name):
